@@ -415,19 +415,36 @@ func (k *kvRun) collectLive(expectPosted int64) []any {
 		}
 		time.Sleep(200 * time.Microsecond)
 	}
-	var out []any
+	// Each collection has its own feed; what one step posted to several collections (an expiry sweep) has no
+	// order across them that a client could observe.  The lists are merged by the CAS at their heads - the order
+	// in which the events were posted - each list keeping the order in which it was delivered.
+	var lists [][]sgbucket.FeedEvent
 	for _, name := range kvColls {
 		lf := k.feeds[name]
 		if lf == nil {
 			continue
 		}
 		lf.mu.Lock()
-		for _, ev := range lf.events {
-			out = append(out, feventTerm(ev))
+		if len(lf.events) > 0 {
+			lists = append(lists, lf.events)
 		}
 		k.received += len(lf.events)
 		lf.events = nil
 		lf.mu.Unlock()
+	}
+	var out []any
+	for {
+		best := -1
+		for i, l := range lists {
+			if len(l) > 0 && (best < 0 || l[0].Cas < lists[best][0].Cas) {
+				best = i
+			}
+		}
+		if best < 0 {
+			break
+		}
+		out = append(out, feventTerm(lists[best][0]))
+		lists[best] = lists[best][1:]
 	}
 	return out
 }
